@@ -4,16 +4,17 @@
 import json, os, shutil, subprocess, sys
 ROOT = os.path.dirname(os.path.dirname(os.path.abspath(__file__)))
 pid, var = sys.argv[1], sys.argv[2]
-extra = [a for a in sys.argv[3:] if a not in ("round2", "round3", "round4", "round5")]
+extra = [a for a in sys.argv[3:] if a not in ("round2", "round3", "round4", "round5", "round6")]
 round2 = "round2" in sys.argv[3:]
 round3 = "round3" in sys.argv[3:]
 round4 = "round4" in sys.argv[3:]
 round5 = "round5" in sys.argv[3:]
-src = (f"/tmp/mutout5_{pid}/{var}" if round5 else f"/tmp/mutout4_{pid}/{var}" if round4 else f"/tmp/mutout3_{pid}/{var}" if round3
+round6 = "round6" in sys.argv[3:]
+src = (f"/tmp/mutout6_{pid}/{var}" if round6 else f"/tmp/mutout5_{pid}/{var}" if round5 else f"/tmp/mutout4_{pid}/{var}" if round4 else f"/tmp/mutout3_{pid}/{var}" if round3
        else f"/tmp/mutout2_{pid}/{var}" if round2 else f"/tmp/mutout_{pid}/{var}")
-label = pid + ({"a": "i", "b": "j"}[var] if round5 else {"a": "g", "b": "h"}[var] if round4 else {"a": "e", "b": "f"}[var] if round3
+label = pid + ({"a": "k", "b": "l"}[var] if round6 else {"a": "i", "b": "j"}[var] if round5 else {"a": "g", "b": "h"}[var] if round4 else {"a": "e", "b": "f"}[var] if round3
                else {"a": "c", "b": "d"}[var] if round2 else var)
-wt = f"/tmp/mut5_{pid}" if round5 else f"/tmp/mut4_{pid}" if round4 else f"/tmp/mut_{pid}"
+wt = f"/tmp/mut6_{pid}" if round6 else f"/tmp/mut5_{pid}" if round5 else f"/tmp/mut4_{pid}" if round4 else f"/tmp/mut_{pid}"
 patch = os.path.join(src, "patch.diff")
 ran = []
 # 1. confirm in the scratch worktree: applies, existing tests pass
